@@ -196,7 +196,45 @@ def gen_prog(rng, profile='mixed', malformed=False):
     if not any(a[0] == 'P' for a in main):
         main.insert(0, ['P', 0, 'S'])
     tail = rng.choice(['0', '0', '1/4', '1'])
-    return {'tempos': tempos, 'bodies': bodies, 'main': main, 'tail': tail}
+    return spice(rng, {'tempos': tempos, 'bodies': bodies, 'main': main, 'tail': tail}, rt)
+
+
+# latencies at the edges of the timetag representation (int(x * 2**32)): one unit, half a unit (truncation), just below and
+# just above a whole second, negative zero, a very large latency
+EDGE_LATS = ['-0', '1/4294967296', '1/8589934592', '3/8589934592', '4294967295/4294967296', '4294967297/4294967296',
+             '8589934591/8589934592', '1048576', '2147483649/2147483648']
+
+
+EDGE_LATS_RT = ['-0', '1/4294967296', '4294967295/4294967296', '4294967297/4294967296', '1048576']
+
+
+def spice(rng, p, rt=False):
+    """Bug-class review: (1) integral numbers as Python ints, -0.0; (4)(5) the same send repeated at one instant (equal
+    content, many bundles at the same instant); (5) latencies at timetag-unit edges; (3) several sends in a row from the main
+    thread in RT.  Applied to every generated program; the model is untouched (same values)."""
+    p['ints'] = rng.random() < 0.4
+    for b in p['bodies']:
+        sends = [i for i, a in enumerate(b) if a[0] in ('S', 'M', 'B')]
+        if sends and rng.random() < 0.3:
+            i = rng.choice(sends)
+            b[i:i] = [json.loads(json.dumps(b[i])) for _ in range(rng.choice([1, 1, 2, 6]))]
+        for a in b:
+            if a[0] == 'S' and rng.random() < 0.12:
+                # RT: only the timetag is observable, the harness derives the due seconds from it, so stay on the 2^-32 grid there
+                # (truncation below a unit is exercised at unit level, `tag_rt`, and in NRT)
+                a[1] = rng.choice(EDGE_LATS_RT if rt else EDGE_LATS)
+            if a[0] == 'Y' and Fraction(a[1]) == 0 and rng.random() < 0.3:
+                a[1] = '-0'
+    if rt:
+        for _ in range(rng.choice([0, 2, 3, 4])):
+            p['main'].append(['S', rng.choice([None, '0', '1/8', '-1/4', '1/4294967296', '-0']), rng.randint(0, 99)])
+        # RT deltas are tiny fractions: the only integral yield is 0 -- make sure every RT wake-up loop (SystemClock._run,
+        # TempoClock._run) sees `yield 0` as an int and as a float
+        p['ints'] = rng.random() < 0.5
+        for b in p['bodies']:
+            if rng.random() < 0.6:
+                b.insert(rng.randint(0, len(b)), ['Y', rng.choice(['0', '0', '-0'])])
+    return p
 
 
 # ------------------------------------------------------------------ fixed programs for the suspected defects
@@ -418,10 +456,60 @@ def monitors(p, o):
     return bad
 
 
+def gen_ties_prog(rng, k):
+    """Class (7): FIFO among equal times.  Several routines of one clock are due at the SAME beat again and again (same
+    yields), routines of another clock are due at the same SECONDS, every wake-up sends a message (so the order is visible in the
+    score), and a routine of a third thread changes the tempo while the ties are pending (re-timing / re-adding the tied tasks)."""
+    t0 = rng.choice(['1', '2', '1/2', '4'])
+    c = [['T', 0], 'S', ['T', 1], 'A'][k % 4]
+    n = rng.randint(3, 5)
+    d = Fraction(rng.choice(['1/4', '1/2', '1']))
+    steps = rng.randint(2, 4)
+    bodies = [[]]
+    mid = 0
+    for w in range(n):                       # the tied workers on clock c
+        b = []
+        for _ in range(steps):
+            b += [['S', rng.choice(['0', None, '1/8']), mid], ['Y', str(d)]]
+            mid += 1
+        b.append(['M', mid]); mid += 1
+        bodies.append(b)
+        bodies[0].append(['P', len(bodies) - 1, c])
+    # workers of another clock due at the same SECONDS
+    tc = Fraction(t0) if c == ['T', 0] else Fraction(1)
+    oc = 'S' if c != 'S' else ['T', 1]
+    for w in range(2):
+        b = []
+        for _ in range(steps):
+            b += [['S', '0', mid], ['Y', str(d / tc)]]
+            mid += 1
+        bodies.append(b)
+        bodies[0].insert(rng.randint(0, len(bodies[0])), ['P', len(bodies) - 1, oc])
+    # the tempo of T0 changes while ties are pending (re-time), then again at a tie instant
+    changer = [['Y', str(d / tc / 2)], ['T', 0, rng.choice(['2', '4', '1/2'])], ['Y', str(d / tc / 2)], ['T', 0, t0], ['S', '0', mid]]
+    bodies.append(changer)
+    bodies[0].insert(rng.randint(0, len(bodies[0])), ['P', len(bodies) - 1, rng.choice(['S', 'A'])])
+    return spice(rng, {'tempos': [t0, '1'], 'bodies': bodies, 'main': [['P', 0, rng.choice(['S', ['T', 0]])]], 'tail': '0'})
+
+
+def _two_site(node, bad, where):
+    """class (6): the seconds in the list view and the timetag in the bytes of the SAME bundle (any depth)"""
+    if node[0] != 'b' or node[1]:
+        return
+    t = Fraction(node[2])
+    if t >= 0 and node[3] != int(float(t) * 4294967296.0):
+        bad.append(('score_times_exact', None, '%s: list view says %s s, the bytes carry timetag %s (= %s s)'
+                    % (where, t, node[3], Fraction(node[3], 1 << 32))))
+    for x in node[4]:
+        _two_site(x, bad, where + ' / nested')
+
+
 def score_monitors(p, o):
     bad = []
     F = Fraction
     sc = o['score']
+    for j, s in enumerate(sc):
+        _two_site(s, bad, 'score entry %d' % j)
     times = [F(s[2]) for s in sc]
     if any(b < a for a, b in zip(times, times[1:])):
         bad.append(('score_sorted_stable', None, 'score not ordered by time: %s' % [str(t) for t in times]))
@@ -473,8 +561,8 @@ def gen_cross_prog(rng, k, rt=False):
     gc = rng.choice(kinds)
     child = [send(), ['Y', d()], ['P', 3, gc], ['Y', d()], send()]
     grand = [send(), ['Y', d()], send()]
-    return {'tempos': [t0, t1], 'bodies': [root, parent, child, grand],
-            'main': [['P', 0, 'S' if rt else rng.choice(['S', 'S', 'A', ['T', 1]])]], 'tail': '0'}
+    return spice(rng, {'tempos': [t0, t1], 'bodies': [root, parent, child, grand],
+                       'main': [['P', 0, 'S' if rt else rng.choice(['S', 'S', 'A', ['T', 1]])]], 'tail': '0'}, rt)
 
 
 def gen_rt_tempo_prog(rng):
@@ -509,7 +597,7 @@ def gen_rt_tempo_prog(rng):
         main.append(['P', 0, ['T', 0]])       # two routines of the same clock, both changing its tempo
     elif r < 0.75:
         main.append(['P', 2, 'S'])            # the tempo is changed from another clock's thread
-    return {'tempos': tempos, 'bodies': bodies, 'main': main, 'tail': '0'}
+    return spice(rng, {'tempos': tempos, 'bodies': bodies, 'main': main, 'tail': '0'}, True)
 
 
 # ------------------------------------------------------------------ law probes: sched / defer / play / beats setter / etempo
@@ -520,9 +608,15 @@ def probe_combos(rt):
         for parent in kinds:
             for target in kinds:
                 combos.append((op, parent, target))
-    for op in (['beats', 'tempo', 'tempo'] if rt else ['beats', 'etempo', 'tempo']):
+    for op in (['beats', 'tempo', 'tempo', 'reads'] if rt else ['beats', 'etempo', 'tempo', 'reads']):
         for i in range(2):
             combos.append((op, ['T', i], ['T', i]))
+    for parent in kinds:                                  # re-scheduling a task that is running / pending
+        combos.append(('self_resched', parent, parent))
+    for target in kinds:
+        combos.append(('other_resched', rt and 'S' or kinds[(kinds.index(target) + 1) % len(kinds)], target))
+        if target != 'A':                                   # AppClock has no sched_abs
+            combos.append(('sched_abs', kinds[(kinds.index(target) + 2) % len(kinds)], target))
     # the pairs a seeded change is most likely to hide in come first: App <- Tempo, Tempo <- App, Tempo_i <- Tempo_j
     prio = [x for x in combos if x[1] != x[2] and 'S' not in (x[1], x[2])]
     return prio + [x for x in combos if x not in prio]
@@ -534,11 +628,19 @@ def gen_probe(rng, k, rt=False):
     scale = Fraction(1, 32) if rt else Fraction(1)
     q = lambda: str(Fraction(rng.choice(['1/8', '1/4', '3/8', '1/2', '1'])) * scale)
     t0, t1 = rng.sample(['2', '1/2', '4'], 2)
-    return {'tempos': [t0, t1], 'parent': parent, 'target': target, 'op': op, 'start': q(), 'adv': q(),
-            'delta': q(), 'val': rng.choice(['2', '4', '1/2', '1']) if op in ('etempo', 'tempo') else
-            # RT: only move the beats forward (a task moved to the past runs at once; moved to the future it would wait)
-            str(Fraction(rng.randint(512, 1024), 8) if rt else Fraction(rng.randint(0, 64), 8)),
-            'after': q()}
+    zero = rng.random() < 0.25                             # class (1): explicit 0 / 0.0 / int deltas
+    pr = {'tempos': [t0, t1], 'parent': parent, 'target': target, 'op': op, 'start': q(), 'adv': q(),
+          'ints': rng.random() < 0.4, 'val2': rng.choice([None, '2', '4', '1/2']),
+          'delta': '0' if (zero and op in ('sched', 'defer', 'sched_abs')) else q(),
+          'val': rng.choice(['2', '4', '1/2', '1']) if op in ('etempo', 'tempo') else
+          # RT: only move the beats forward (a task moved to the past runs at once; moved to the future it would wait)
+          str(Fraction(rng.randint(512, 1024), 8) if rt else Fraction(rng.randint(0, 64), 8)),
+          'after': q()}
+    if op == 'other_resched':                              # the re-scheduling must come while the victim is still pending
+        pr['adv'], pr['after'] = str(Fraction(1, 8) * scale), str(scale)
+        if rng.random() < 0.5:
+            pr['delta'] = str(6 * scale)                   # ... and moves the wake-up LATER than the one it replaces
+    return pr
 
 
 def probe_expected(pr, o):
@@ -566,11 +668,46 @@ def probe_expected(pr, o):
     chk('parent logical seconds at the operation', o['at_op']['secs'], T)
     chk('parent clock beats at the operation', o['at_op']['beats'], s2b(pr['parent'], T))
     op, tg = pr['op'], pr['target']
-    if op in ('sched', 'defer'):
+    chk('beats of clock %s read from a routine on %s' % (clock_name(tg), clock_name(pr['parent'])), o['target_beats_at_op'], s2b(tg, T))
+    import math
+    if op == 'reads':
+        r = o['reads']
+        for name in ('System.seconds', 'System.beats', 'App.seconds', 'clock.seconds'):
+            chk(name + ' read from a late routine', r[name], T)
+        for j in range(2):
+            b = s2b(['T', j], T)
+            chk('T%d.beats' % j, r['T%d.beats' % j], b)
+            chk('T%d.seconds' % j, r['T%d.seconds' % j], T)
+            chk('T%d.next_time_on_grid(1, 0)' % j, r['T%d.next_time_on_grid' % j], F(math.ceil(b)))
+            chk('T%d.time_to_next_beat(1)' % j, r['T%d.time_to_next_beat' % j], F(math.ceil(b)) - b)
+            chk('T%d.bar()' % j, r['T%d.bar' % j], F(math.floor(b / 4)))
+            chk('T%d.next_bar()' % j, r['T%d.next_bar' % j], F(math.ceil(b / 4)) * 4)
+            chk('T%d.beat_in_bar()' % j, r['T%d.beat_in_bar' % j], b - F(math.floor(b / 4)) * 4)
+    elif op == 'self_resched':
+        dd = dur(pr['parent'], F(pr['after']))
+        if [F(x) for x in o['resumes']] != [T + dd, T + 2 * dd]:
+            bad.append(('a routine on %s that calls clock.sched(%s, itself) and then yields %s twice: seconds of its resumptions'
+                        % (clock_name(pr['parent']), pr['delta'], pr['after']), str(o['resumes']), str([str(T + dd), str(T + 2 * dd)])))
+    elif op == 'other_resched':
+        T2 = T + dur(pr['parent'], F(pr['adv']))
+        chk('seconds when the pending routine was scheduled again', o['at_resched']['secs'], T2)
+        tt = None if tg in ('S', 'A') else (F(pr['val2']) if pr.get('val2') else tempo[tg[1]])
+        d1 = F(pr['delta']) if tt is None else F(pr['delta']) / tt
+        d2 = F(pr['after']) if tt is None else F(pr['after']) / tt
+        exp = [T, T2 + d1, T2 + d1 + d2]
+        # RT only: the victim's clock thread may not have started it yet when the other thread schedules it again; then the
+        # re-scheduling replaces its FIRST wake-up (still exactly one pending wake-up)
+        alt = [T2 + d1, T2 + d1 + 4 * d2, T2 + d1 + 5 * d2]
+        got = [F(x) for x in o['resumes']]
+        if got != exp and not (o['clock_base'] and F(o['root']['secs']) != 0 and got == alt):
+            bad.append(('routine on %s, pending, scheduled again with %s.sched(%s, routine)%s: seconds of its resumptions (one wake-up, the new one)'
+                        % (clock_name(tg), clock_name(tg), pr['delta'], ' then tempo = %s' % pr['val2'] if tt is not None and pr.get('val2') else ''),
+                        str(o['resumes']), str([str(x) for x in exp])))
+    if op in ('sched', 'defer', 'sched_abs'):
         exp = T + dur(tg, F(pr['delta']))
         chk('%s(%s) from a routine on %s onto %s: logical seconds when the function ran' % (op, pr['delta'], pr['parent'], tg), o['ran']['secs'], exp)
         chk('target clock beats when the function ran', o['ran']['beats'], s2b(tg, T) + (F(pr['delta']) if tg not in ('S', 'A') else dur(tg, F(pr['delta']))))
-    elif op == 'play':
+    if op == 'play':
         chk('child played on %s from a routine on %s: seconds of its first resumption' % (tg, pr['parent']), o['ran']['secs'], T)
     elif op == 'beats':
         chk('clock.beats right after clock.beats = v', o['after_set']['beats'], F(pr['val']))
@@ -596,7 +733,8 @@ def probe_expected(pr, o):
 
 
 # ------------------------------------------------------------------ strengthening 2 (C05): survivors next to tasks that end / raise
-ENDER_KINDS = ['routine_end', 'routine_raise', 'func_end', 'func_raise']
+ENDER_KINDS = ['routine_end', 'routine_raise', 'func_end', 'func_raise', 'func_num', 'routine_raise_first', 'func_stop',
+               'nested_raise', 'nested_end']
 
 
 def gen_alongside(rng, k, rt=False):
@@ -618,7 +756,7 @@ def gen_alongside(rng, k, rt=False):
         delay = span * Fraction(rng.randint(1, 120), 128) + Fraction(rng.randint(1, 7), 1024)    # off the survivors' grid
         if c not in ('S', 'A'):
             delay = delay * Fraction(tempos[c[1]])
-        enders.append({'clock': c, 'kind': ENDER_KINDS[(j + k) % 4], 'delay': str(delay)})
+        enders.append({'clock': c, 'kind': ENDER_KINDS[(j + k) % len(ENDER_KINDS)], 'delay': str(delay)})
     return {'tempos': tempos, 'survivors': surv, 'enders': enders, 'start': str(Fraction(rng.randint(1, 8), 128))}
 
 
@@ -627,6 +765,8 @@ def alongside_expected(pr, o):
     F = Fraction
     if 'fatal' in o:
         return [('probe crashed', o['fatal'][-300:], '')]
+    if o.get('lost_wakeup'):
+        return [('survivors', 'not all ended and no clock holds a wake-up for them (main lock held: independent of load)', 'every yield re-scheduled')]
     if not o.get('completed'):
         return None
     bad = []
@@ -641,6 +781,10 @@ def alongside_expected(pr, o):
                 bad.append(('survivor on %s, resumption %d: logical seconds / beats' % (clock_name(c), k),
                             '%s / %s (seconds off by %s)' % (s, b, F(s) - es), '%s / %s' % (es, eb)))
                 break
+    if o.get('current_tt_is_main') is False:
+        bad.append(('main.current_tt after all tasks ran', 'not the main time thread', 'the main time thread'))
+    if o.get('in_awake_call'):
+        bad.append(('main._in_awake_call after all tasks ran', 'True', 'False'))
     return bad
 
 
